@@ -206,6 +206,10 @@ Example F6_histories_fixed :
   end.
 Proof. vm_compute. repeat split; reflexivity. Qed.
 
+(* a reachable state of the fixed model used by Props/C16.v as its non-vacuity example *)
+Definition labels_C16_example : list label :=
+  Eval vm_compute in schedule fixed [] (init 1 3) [Enq 1 false 0; Enq 1 false 1; Enq 1 false 2; Enq 1 false 3].
+
 (* ---- outside the six properties' scope, recorded because the harness met it: Dequeue while the dispatcher is NOT
    idle (it waits for a token in the full-queue branch) can empty the heap, and the dispatcher then pops an empty
    heap: a crash of the FIXED code too.  C16 restricts the calls to an idle dispatcher; this shows why. ---- *)
